@@ -10,18 +10,13 @@ use crate::{
     crypto::{encrypt_block, hash_string, hash_type},
     header::FormatVersion,
     special_files::{AttributeFlags, Attributes, FileAttributes},
-    tables::{BetHeader, BlockEntry, BlockTable, HashEntry, HashTable, HetHeader, HiBlockTable},
+    tables::{BlockEntry, BlockTable, HashEntry, HashTable, HiBlockTable},
 };
 use bytes::Bytes;
 use std::collections::HashMap;
 use std::fs::{File, OpenOptions};
 use std::io::{Read, Seek, SeekFrom, Write};
 use std::path::{Path, PathBuf};
-
-/// Generate a generic filename for files without known names
-fn generate_anonymous_filename(hash: u32) -> String {
-    format!("File{:08X}.unknown", hash)
-}
 
 /// Options for adding files to an archive
 #[derive(Debug, Clone)]
@@ -116,14 +111,12 @@ pub struct MutableArchive {
     attributes_dirty: bool,
     /// Track modified blocks for CRC calculation (block_index -> filename)
     modified_blocks: HashMap<u32, String>,
-    /// Updated HET table position for V3+ archives
-    updated_het_pos: Option<u64>,
-    /// Updated BET table position for V3+ archives  
-    updated_bet_pos: Option<u64>,
-    /// Updated hash table position for V3+ archives
+    /// Position of the hash table if it was moved behind appended data
     updated_hash_table_pos: Option<u64>,
-    /// Updated block table position for V3+ archives
+    /// Position of the block table if it was moved behind appended data
     updated_block_table_pos: Option<u64>,
+    /// Position of the hi-block table if one was written with the moved tables
+    updated_hi_block_table_pos: Option<u64>,
 }
 
 impl MutableArchive {
@@ -161,10 +154,9 @@ impl MutableArchive {
             _special_file_blocks: HashMap::new(),
             attributes_dirty: false,
             modified_blocks: HashMap::new(),
-            updated_het_pos: None,
-            updated_bet_pos: None,
             updated_hash_table_pos: None,
             updated_block_table_pos: None,
+            updated_hi_block_table_pos: None,
         })
     }
 
@@ -606,6 +598,7 @@ impl MutableArchive {
         self.next_file_offset = None;
         self.updated_hash_table_pos = None;
         self.updated_block_table_pos = None;
+        self.updated_hi_block_table_pos = None;
         self.modified_blocks.clear();
 
         // Ensure tables are loaded
@@ -1222,18 +1215,22 @@ impl MutableArchive {
 
     /// Write updated tables back to the archive
     fn write_tables(&mut self) -> Result<()> {
-        let header = self.archive.header();
+        let is_v3_plus = self.archive.header().format_version >= FormatVersion::V3;
 
-        // For V3+ archives, we need to rebuild the entire table structure
-        // to maintain the correct order: HET, BET, Hash, Block
-        if header.format_version >= FormatVersion::V3 {
-            return self.write_tables_v3_plus();
+        // A V3/V4 archive always gets new tables behind everything it contains. The
+        // hash and block table it came with can be stored compressed, so they cannot
+        // be overwritten in place, and its HET/BET tables describe the state before
+        // the change. Only the hash and block table are written: they are complete,
+        // and the header will say that there are no HET/BET tables.
+        if is_v3_plus && self.next_file_offset.is_none() {
+            self.get_archive_end_offset()?;
         }
 
         // For V1/V2 archives the tables keep their place as long as no file data was
         // appended in this session. Appended data starts right behind the old tables,
         // so a block table that grew would overwrite it: in that case the tables are
         // written behind the appended data and the header is pointed at them.
+        let header = self.archive.header();
         let archive_offset = self.archive.archive_offset();
         let hash_table_len = self
             .hash_table
@@ -1310,6 +1307,23 @@ impl MutableArchive {
             }
         }
 
+        // A V3/V4 archive whose files reach beyond 4 GiB keeps its hi-block table. It
+        // follows the block table, with an entry for every block.
+        self.updated_hi_block_table_pos = None;
+        if is_v3_plus
+            && let Some(block_table) = &self.block_table
+            && let Some(hi_block_table) = self.archive.hi_block_table()
+            && hi_block_table.is_needed()
+        {
+            let mut table_data = Vec::new();
+            for index in 0..block_table.entries().len() {
+                let high = hi_block_table.get(index).unwrap_or(0);
+                table_data.extend_from_slice(&high.to_le_bytes());
+            }
+            self.updated_hi_block_table_pos = Some(self.file.stream_position()? - archive_offset);
+            self.file.write_all(&table_data)?;
+        }
+
         if self.next_file_offset.is_some() {
             // Remember where the tables went; files added later in this session must
             // be placed behind them.
@@ -1320,336 +1334,6 @@ impl MutableArchive {
         }
 
         Ok(())
-    }
-
-    /// Write tables for V3+ archives with correct ordering
-    fn write_tables_v3_plus(&mut self) -> Result<()> {
-        let hash_table = self
-            .hash_table
-            .as_ref()
-            .ok_or_else(|| Error::invalid_format("Hash table not loaded for V3+ table write"))?;
-        let block_table = self
-            .block_table
-            .as_ref()
-            .ok_or_else(|| Error::invalid_format("Block table not loaded for V3+ table write"))?;
-
-        // Find the end of file data to start writing tables
-        let current_pos = self.file.stream_position()?;
-        let archive_offset = self.archive.archive_offset();
-
-        // Write HET table first (correct order for V3+)
-        let het_pos = current_pos - archive_offset;
-        let (het_data, _het_header) = self.create_het_table_from_hash_table(hash_table)?;
-        self.file.write_all(&het_data)?;
-
-        // Write BET table second
-        let bet_pos = self.file.stream_position()? - archive_offset;
-        let (bet_data, _bet_header) = self.create_bet_table_from_block_table(block_table)?;
-        self.file.write_all(&bet_data)?;
-
-        // Write hash table third
-        let hash_table_pos = self.file.stream_position()? - archive_offset;
-        let mut table_data = Vec::new();
-        for entry in hash_table.entries() {
-            table_data.extend_from_slice(&entry.name_1.to_le_bytes());
-            table_data.extend_from_slice(&entry.name_2.to_le_bytes());
-            table_data.extend_from_slice(&entry.locale.to_le_bytes());
-            table_data.extend_from_slice(&entry.platform.to_le_bytes());
-            table_data.extend_from_slice(&entry.block_index.to_le_bytes());
-        }
-
-        // Encrypt the hash table
-        let key = hash_string("(hash table)", hash_type::FILE_KEY);
-        let mut u32_buffer: Vec<u32> = table_data
-            .chunks_exact(4)
-            .map(|chunk| u32::from_le_bytes([chunk[0], chunk[1], chunk[2], chunk[3]]))
-            .collect();
-        encrypt_block(&mut u32_buffer, key);
-
-        // Write encrypted hash table
-        for &value in &u32_buffer {
-            self.file.write_all(&value.to_le_bytes())?;
-        }
-
-        // Write block table fourth
-        let block_table_pos = self.file.stream_position()? - archive_offset;
-        let mut table_data = Vec::new();
-        for entry in block_table.entries() {
-            table_data.extend_from_slice(&entry.file_pos.to_le_bytes());
-            table_data.extend_from_slice(&entry.compressed_size.to_le_bytes());
-            table_data.extend_from_slice(&entry.file_size.to_le_bytes());
-            table_data.extend_from_slice(&entry.flags.to_le_bytes());
-        }
-
-        // Encrypt the block table
-        let key = hash_string("(block table)", hash_type::FILE_KEY);
-        let mut u32_buffer: Vec<u32> = table_data
-            .chunks_exact(4)
-            .map(|chunk| u32::from_le_bytes([chunk[0], chunk[1], chunk[2], chunk[3]]))
-            .collect();
-        encrypt_block(&mut u32_buffer, key);
-
-        // Write encrypted block table
-        for &value in &u32_buffer {
-            self.file.write_all(&value.to_le_bytes())?;
-        }
-
-        // Store all the updated positions for header update
-        self.updated_het_pos = Some(het_pos);
-        self.updated_bet_pos = Some(bet_pos);
-        self.updated_hash_table_pos = Some(hash_table_pos);
-        self.updated_block_table_pos = Some(block_table_pos);
-
-        Ok(())
-    }
-
-    /// Create HET table data from hash table (simplified version of ArchiveBuilder logic)
-    fn create_het_table_from_hash_table(
-        &self,
-        hash_table: &HashTable,
-    ) -> Result<(Vec<u8>, HetHeader)> {
-        use crate::crypto::het_hash;
-
-        // Count actual files from the hash table
-        let mut file_count = 0u32;
-        for entry in hash_table.entries() {
-            if !entry.is_empty() {
-                file_count += 1;
-            }
-        }
-
-        let hash_table_entries = (file_count * 2).max(16).next_power_of_two();
-
-        // Create header
-        let header = HetHeader {
-            table_size: 0, // Will be calculated later
-            max_file_count: file_count,
-            hash_table_size: hash_table_entries,
-            hash_entry_size: 8,
-            total_index_size: hash_table_entries * Self::calculate_bits_needed(file_count as u64),
-            index_size_extra: 0,
-            index_size: Self::calculate_bits_needed(file_count as u64),
-            block_table_size: 0,
-        };
-
-        let index_size = header.index_size;
-
-        // Create hash table and file indices arrays
-        let mut het_hash_table = vec![0xFFu8; hash_table_entries as usize];
-        let file_indices_size = (header.total_index_size as usize).div_ceil(8);
-        let mut file_indices = vec![0u8; file_indices_size];
-
-        // Pre-fill with invalid indices
-        let invalid_index = (1u64 << index_size) - 1;
-        for i in 0..hash_table_entries {
-            self.write_bit_entry(&mut file_indices, i as usize, invalid_index, index_size)?;
-        }
-
-        // Process files from hash table
-        let mut file_index = 0;
-        for entry in hash_table.entries() {
-            if !entry.is_empty() {
-                // Reconstruct filename from hash (this is an approximation)
-                let filename = generate_anonymous_filename(file_index); // Optimized filename generation
-
-                let hash_bits = 8;
-                let (hash, name_hash1) = het_hash(&filename, hash_bits);
-                let start_index = (hash % hash_table_entries as u64) as usize;
-
-                // Linear probing for collision resolution
-                let mut current_index = start_index;
-                loop {
-                    if het_hash_table[current_index] == 0xFF {
-                        het_hash_table[current_index] = name_hash1;
-                        self.write_bit_entry(
-                            &mut file_indices,
-                            current_index,
-                            file_index as u64,
-                            index_size,
-                        )?;
-                        break;
-                    }
-                    current_index = (current_index + 1) % hash_table_entries as usize;
-                    if current_index == start_index {
-                        return Err(Error::invalid_format("HET table full"));
-                    }
-                }
-                file_index += 1;
-            }
-        }
-
-        // Build the result with extended header
-        let het_header_size = std::mem::size_of::<HetHeader>();
-        let data_size = het_header_size as u32 + hash_table_entries + file_indices_size as u32;
-        let table_size = 12 + data_size;
-
-        let mut final_header = header;
-        final_header.table_size = table_size;
-
-        let mut result = Vec::with_capacity((12 + data_size) as usize);
-
-        // Write extended header
-        result.extend_from_slice(&0x1A544548u32.to_le_bytes()); // "HET\x1A"
-        result.extend_from_slice(&1u32.to_le_bytes()); // version
-        result.extend_from_slice(&data_size.to_le_bytes()); // data_size
-
-        // Write HET header
-        result.extend_from_slice(&final_header.table_size.to_le_bytes());
-        result.extend_from_slice(&final_header.max_file_count.to_le_bytes());
-        result.extend_from_slice(&final_header.hash_table_size.to_le_bytes());
-        result.extend_from_slice(&final_header.hash_entry_size.to_le_bytes());
-        result.extend_from_slice(&final_header.total_index_size.to_le_bytes());
-        result.extend_from_slice(&final_header.index_size_extra.to_le_bytes());
-        result.extend_from_slice(&final_header.index_size.to_le_bytes());
-        result.extend_from_slice(&final_header.block_table_size.to_le_bytes());
-
-        // Write hash table and file indices
-        result.extend_from_slice(&het_hash_table);
-        result.extend_from_slice(&file_indices);
-
-        Ok((result, final_header))
-    }
-
-    /// Create BET table data from block table (simplified version)
-    fn create_bet_table_from_block_table(
-        &self,
-        block_table: &BlockTable,
-    ) -> Result<(Vec<u8>, BetHeader)> {
-        use crate::crypto::jenkins_hash;
-
-        let file_count = block_table.entries().len() as u32;
-
-        // Analyze block table to determine optimal bit widths (simplified)
-        let bit_count_file_pos = 32; // Use full 32 bits for simplicity
-        let bit_count_file_size = 32;
-        let bit_count_cmp_size = 32;
-        let bit_count_flag_index = 8; // Assume max 256 unique flag combinations
-        let table_entry_size =
-            bit_count_file_pos + bit_count_file_size + bit_count_cmp_size + bit_count_flag_index;
-
-        let header = BetHeader {
-            table_size: 0, // Will be calculated later
-            file_count,
-            unknown_08: 0x10,
-            table_entry_size,
-            bit_index_file_pos: 0,
-            bit_index_file_size: bit_count_file_pos,
-            bit_index_cmp_size: bit_count_file_pos + bit_count_file_size,
-            bit_index_flag_index: bit_count_file_pos + bit_count_file_size + bit_count_cmp_size,
-            bit_index_unknown: table_entry_size,
-            bit_count_file_pos,
-            bit_count_file_size,
-            bit_count_cmp_size,
-            bit_count_flag_index,
-            bit_count_unknown: 0,
-            total_bet_hash_size: file_count * 64, // 64-bit hashes
-            bet_hash_size_extra: 0,
-            bet_hash_size: 64,
-            bet_hash_array_size: file_count * 8, // 8 bytes per 64-bit hash
-            flag_count: 1,                       // Simplified: assume all files have same flags
-        };
-
-        // Create simplified BET table
-        let bet_header_size = std::mem::size_of::<BetHeader>();
-        let data_size = bet_header_size as u32 + 4 + (file_count * 12); // header + flag array + file table + hashes
-        let table_size = 12 + data_size;
-
-        let mut final_header = header;
-        final_header.table_size = table_size;
-
-        let mut result = Vec::with_capacity((12 + data_size) as usize);
-
-        // Write extended header
-        result.extend_from_slice(&0x1A544542u32.to_le_bytes()); // "BET\x1A"
-        result.extend_from_slice(&1u32.to_le_bytes()); // version
-        result.extend_from_slice(&data_size.to_le_bytes()); // data_size
-
-        // Write BET header (simplified)
-        result.extend_from_slice(&final_header.table_size.to_le_bytes());
-        result.extend_from_slice(&final_header.file_count.to_le_bytes());
-        result.extend_from_slice(&final_header.unknown_08.to_le_bytes());
-        result.extend_from_slice(&final_header.table_entry_size.to_le_bytes());
-
-        // Write remaining header fields (simplified)
-        for _ in 0..15 {
-            // Fill remaining header fields with zeros
-            result.extend_from_slice(&0u32.to_le_bytes());
-        }
-
-        // Write flag array (simplified)
-        result.extend_from_slice(&0u32.to_le_bytes()); // Single flag value
-
-        // Write simplified file table and hashes
-        for (i, entry) in block_table.entries().iter().enumerate() {
-            result.extend_from_slice(&entry.file_pos.to_le_bytes());
-            result.extend_from_slice(&entry.file_size.to_le_bytes());
-            result.extend_from_slice(&entry.compressed_size.to_le_bytes());
-
-            // Generate a hash for this file (placeholder)
-            let hash = jenkins_hash(&generate_anonymous_filename(i as u32));
-            result.extend_from_slice(&hash.to_le_bytes());
-        }
-
-        Ok((result, final_header))
-    }
-
-    /// Write a bit-packed entry to a byte array
-    fn write_bit_entry(
-        &self,
-        data: &mut [u8],
-        index: usize,
-        value: u64,
-        bit_size: u32,
-    ) -> Result<()> {
-        let bit_offset = index * bit_size as usize;
-        let byte_offset = bit_offset / 8;
-        let bit_shift = bit_offset % 8;
-
-        let bits_needed = bit_shift + bit_size as usize;
-        let bytes_needed = bits_needed.div_ceil(8);
-
-        if byte_offset + bytes_needed > data.len() {
-            return Err(Error::invalid_format("Bit entry out of bounds"));
-        }
-
-        // Read existing bits
-        let mut existing = 0u64;
-        let max_bytes = bytes_needed.min(8);
-        for i in 0..max_bytes {
-            if byte_offset + i < data.len() && i * 8 < 64 {
-                existing |= (data[byte_offset + i] as u64) << (i * 8);
-            }
-        }
-
-        // Clear the bits we're about to write
-        let value_mask = if bit_size >= 64 {
-            u64::MAX
-        } else {
-            (1u64 << bit_size) - 1
-        };
-        let mask = value_mask << bit_shift;
-        existing &= !mask;
-
-        // Write the new value
-        existing |= (value & value_mask) << bit_shift;
-
-        // Write back
-        for i in 0..max_bytes {
-            if byte_offset + i < data.len() && i * 8 < 64 {
-                data[byte_offset + i] = (existing >> (i * 8)) as u8;
-            }
-        }
-
-        Ok(())
-    }
-
-    /// Calculate the number of bits needed to represent a value
-    fn calculate_bits_needed(max_value: u64) -> u32 {
-        if max_value == 0 {
-            1
-        } else {
-            (64 - max_value.leading_zeros()).max(1)
-        }
     }
 
     /// Update the archive header
@@ -1722,9 +1406,8 @@ impl MutableArchive {
                 self.file
                     .write_all(&header.archive_size_64.unwrap_or(0).to_le_bytes())?;
 
-                // Use updated positions if available, otherwise use original
-                let het_pos = self.updated_het_pos.or(header.het_table_pos).unwrap_or(0);
-                let bet_pos = self.updated_bet_pos.or(header.bet_table_pos).unwrap_or(0);
+                let het_pos = header.het_table_pos.unwrap_or(0);
+                let bet_pos = header.bet_table_pos.unwrap_or(0);
 
                 self.file.write_all(&het_pos.to_le_bytes())?;
                 self.file.write_all(&bet_pos.to_le_bytes())?;
